@@ -22,12 +22,13 @@ from fractions import Fraction
 import numpy as np
 from . import common
 from . import c16_scen as S
+from . import c16_graph as G
 
 PROP = 'C16'
 GENERATED = ['Demes', 'Admix']
 NEEDS_BUILD = True
 NEEDS_DRIVER = True
-DRIVER_MODULES = ['DemesConv']
+DRIVER_MODULES = ['DemesConv', 'DemesGraph']
 
 INF = float('inf')
 TIGHT = 1e-9
@@ -1119,6 +1120,15 @@ def run(chk, ctx):
         timed('K export', k_export, chk, ctx, R('k-export'), 6 if quick else 40)
         timed('K names', k_names, chk, ctx, R('k-names'), 8 if quick else 24)
         timed('K slice', k_slice, chk, ctx, R('k-slice'), 8 if quick else 60)
+        # graph level (round 4): harness/c16_graph.py
+        timed('K migrate', G.k_migrate, chk, ctx, R('k-migrate'), 6 if quick else 60, eval_sym)
+        timed('K epochsel', G.k_epochsel, chk, ctx, R('k-epochsel'), 5 if quick else 50, eval_sym)
+        timed('K slicegraph', G.k_slicegraph, chk, ctx, R('k-slicegraph'), 6 if quick else 60, eval_sym)
+        timed('K augment', G.k_augment, chk, ctx, R('k-augment'), 8 if quick else 80, eval_sym)
+        timed('K prepare', G.k_prepare, chk, ctx, R('k-prepare'), 5 if quick else 50, eval_sym)
+        timed('K plan', G.k_plan, chk, ctx, R('k-plan'), 8 if quick else 80, eval_sym)
+        timed('K steps', G.k_steps, chk, ctx, R('k-steps'), 10 if quick else 100, eval_sym)
+        timed('K admixargs', G.k_admixargs, chk, ctx, R('k-admixargs'), eval_sym)
     if not any(e is not None for e in chk.translate.values()):
         guard_generated('after the correspondence')
     timed('L3 edges', l3_edges, chk, ctx)
@@ -1134,5 +1144,7 @@ def replay(chk, ctx, data):
     chk.l3(('replay', inp.get('kind')))
     if inp.get('kind') == 'from_demes':
         l3_edges(chk, ctx)
+    elif inp.get('kind') in ('prepare-units', 'steps-scale', 'steps-order', 'admix-axis'):
+        G.replay_case(chk, ctx, inp)
     else:
         eval_case(chk, ctx['dadi'], inp)
